@@ -81,7 +81,8 @@ def r_pairing(F, R, cat=None):
             R.undecided_site("R-PAIRING", top.label(), "no region.push found in the body or its closures")
             continue
         # nothing else writes indices / region
-        others = [e for e in effs if e.cls in ("destructive", "clear", "assign") and self_field_targets(e, tctx)]
+        others = [e for e in effs if e.cls in ("destructive", "clear", "assign") and
+                  [x for x in self_field_targets(e, tctx) if (b.self_adt, x[0]) not in F.debug_only_fields]]
         if others:
             ok = False
             why.append("other writes: %s" % [(e.cls, e.tag[1]) for e in others])
